@@ -480,10 +480,10 @@ CONFIGS = [
     ('complementary', 0, 'NED', {},                                         100.0, 250,  150,  0.01, 0.5, 'q'),   # floor 1.1e-3, settle 91
     ('complementary', 1, 'NED', {},                                         100.0, 250,  150,  0.01, 0.5, 'q'),   # floor 1.5e-3, settle 93
     ('complementary', 1, 'NED', {'gain': 0.5},                              100.0, 100,  40,   0.01, 0.5, 'q'),   # floor 3.9e-4, settle 14
-    # FKF calibrated on the tree with fixes/C05-fkf-unit-measurement.patch (without it: known findings fkf-marg/*)
+    # FKF calibrated on the tree that contains fixes/C05-fkf-unit-measurement.patch (committed); re-checked on HEAD 0413f58
     ('fkf',           1, 'NED', {},                                          10.0, 4200, 3800, 0.25, 0.5, 'q'),   # floor 3.7e-2, settle 2509 (tol .2)
-    ('fkf',           1, 'NED', {'sigma_g': 1.0, 'sigma_a': 0.001, 'sigma_m': 0.001, 'Pk': 1.0}, 100.0, 1500, 1250, 0.25, 0.5, 'q'),   # floor 2.3e-3, settle 804
-    ('fkf',           1, 'NED', {'sigma_g': 1.0, 'sigma_a': 0.01, 'sigma_m': 0.01}, 100.0, 4200, 3800, 0.25, 0.5, 't'),   # floor 3.7e-3, settle 2512
+    ('fkf',           1, 'NED', {'sigma_g': 1.0, 'sigma_a': 0.001, 'sigma_m': 0.001, 'Pk': 1.0}, 100.0, 1650, 1400, 0.25, 0.5, 'q'),   # floor 3.1e-3, settle 908
+    ('fkf',           1, 'NED', {'sigma_g': 1.0, 'sigma_a': 0.01, 'sigma_m': 0.01}, 100.0, 5200, 4700, 0.25, 0.5, 't'),   # floor 6.3e-3, settle 3083
     ('ukf',           0, 'NED', {},                                         100.0, 2000, 1600, 5.0,  0.5, 'q'),   # UKF: see known findings
 ]
 
